@@ -257,7 +257,7 @@ func (b *Book) recordSigs(m *MintBook, o *HTTPObs, outs []JOutput, sigs []JSig, 
 		}
 		m.Sigs[out.B_] = r
 		m.SigSeq = append(m.SigSeq, out.B_)
-		newVal += sg.Amount
+		newVal = satAdd(newVal, sg.Amount)
 		fresh++
 		if sg.Amount != out.Amount && via != "restore" {
 			b.Violate("C02.sig_amount", via, "%s signed amount %d for an output of amount %d", via, sg.Amount, out.Amount)
@@ -367,15 +367,15 @@ func (b *Book) ingestSwap(o *HTTPObs) {
 	fee, ok2 := m.fee(req.Inputs)
 	var out uint64
 	for _, sg := range resp.Signatures {
-		out += sg.Amount
+		out = satAdd(out, sg.Amount)
 	}
 	if ok1 && ok2 {
-		if out+fee > in {
+		if satAdd(out, fee) > in {
 			b.Violate("C02.swap_balance", "swap", "swap signed %d for inputs %d with fee %d", out, in, fee)
 		}
 		// a real wallet asks for exactly inputs minus the fee the mint charges: anything less is
 		// value that ends up nowhere (C17: holdings + melted + mint fees add up)
-		if _, isWallet := b.w.Wallets[o.From]; isWallet && fresh > 0 && out+fee < in {
+		if _, isWallet := b.w.Wallets[o.From]; isWallet && fresh > 0 && satAdd(out, fee) < in {
 			b.w.S.Stats["c17_swap_fee_exact_checked"]++
 			b.Violate("C17.value_lost", "swap-overpaid|"+b.w.LastWalletOp, "wallet %s swapped inputs worth %d for outputs worth %d; the mint's fee for these inputs is %d: %d sat end up nowhere (during [%s])", o.From, in, out, fee, in-fee-out, b.w.LastWalletOp)
 		} else if isWallet {
@@ -384,6 +384,14 @@ func (b *Book) ingestSwap(o *HTTPObs) {
 	} else if !ok1 {
 		b.Violate("C02.swap_balance", "swap_overflow", "swap accepted inputs whose sum overflows")
 	}
+}
+
+// satAdd: saturating addition.
+func satAdd(a, b uint64) uint64 {
+	if a+b < a {
+		return ^uint64(0)
+	}
+	return a + b
 }
 
 func (b *Book) consume(m *MintBook, secret string, inputs []JProof, c ConsRec) {
@@ -491,13 +499,13 @@ func (b *Book) ingestMint(o *HTTPObs) {
 	}
 	var tot uint64
 	for _, sg := range resp.Signatures {
-		tot += sg.Amount
+		tot = satAdd(tot, sg.Amount) // saturating: a sum that wraps around uint64 is "more than any quote"
 	}
 	if tot > q.Amount {
 		b.Violate("C02.mint_over_quote", "mint", "mint issued %d for quote of %d", tot, q.Amount)
 	}
 	if fresh > 0 {
-		q.Issued += newVal
+		q.Issued = satAdd(q.Issued, newVal)
 		q.IssueSeqs = append(q.IssueSeqs, o.RetSeq)
 		inv := b.w.LN.Invoices[q.Hash]
 		payments := uint64(b.internalSettlements(m, q))
@@ -886,6 +894,9 @@ func (b *Book) checkGenuine(m *MintBook, inputs []JProof, via string) {
 	}
 	for _, p := range inputs {
 		b.w.S.Stats["c04_accepted_checked"]++
+		if len(p.Secret) > 512 {
+			b.Violate("C04.oversize_accepted", via, "%s accepted an input whose secret is %d bytes long (limit 512 bytes)", via, len(p.Secret))
+		}
 		if ok, why := b.w.GenuineProof(m.Name, p); !ok {
 			b.Violate("C04.forged_accepted", via, "%s accepted an input that is not a genuine signature at its amount (%s): amount %d id %s", via, why, p.Amount, p.ID)
 		}
